@@ -3,6 +3,7 @@ package chainobs
 import (
 	"fmt"
 	"os"
+	"time"
 )
 
 // Line is one ndjson trace line together with where it came from.
@@ -38,6 +39,12 @@ func cloneBlk(b []Blk) []Blk {
 
 // Execute replays the behaviour on the real observer(s) and records the trace.
 func (r *Run) Execute() {
+	tRun := time.Now()
+	defer func() {
+		if d := time.Since(tRun); d > 3*time.Second && os.Getenv("VERIF_CHAINOBS_DEBUG") != "" {
+			fmt.Fprintf(os.Stderr, "chainobs debug: plan %s run %d took %s: %s\n", r.Plan.Name, r.No, d, behText(r.Plan, r.Beh, -1))
+		}
+	}()
 	w, err := NewWorld(r.Plan.consts(), r.Seed)
 	if err != nil {
 		r.Err = err
@@ -56,18 +63,19 @@ func (r *Run) Execute() {
 	// one primitive step of an observer -> one line
 	obsStep := func(pos int, op string, o int, f FaultJ) (string, bool) {
 		ob := w.obs[o-1]
+		t0 := time.Now()
+		defer func() {
+			if d := time.Since(t0); d > time.Second && os.Getenv("VERIF_CHAINOBS_DEBUG") != "" {
+				fmt.Fprintf(os.Stderr, "chainobs debug: plan %s run %d step %d %s(o%d) %+v took %s\n", r.Plan.Name, r.No, pos, op, o, f, d)
+			}
+		}()
 		a := J{"op": op, "o": o, "f": f}
 		l := J{"k": "step", "a": a, "ret": "ok", "detail": "", "seq": []DBj{}, "rng": []int{}, "fired": f.K != "none"}
 		switch op {
 		case "start":
 			ret, detail := ob.start(f)
-			if ret == "bad" {
-				prev := ""
-				if n := len(r.Lines); n > 0 {
-					prev = brief(r.Lines[n-1].J)
-				}
-				r.Err = fmt.Errorf("step %d: %s; previous line: %s", pos, detail, prev)
-				return ret, false
+			if ret == "bad" { // the real observer is running although the behaviour restarts it: the run ends here (a drift line)
+				ret = "n/a"
 			}
 			ob.mu.Lock()
 			l["fired"] = ob.fired
@@ -75,9 +83,8 @@ func (r *Run) Execute() {
 			l["ret"], l["detail"] = ret, detail
 		case "poll":
 			p := ob.poll(f)
-			if p.Ret == "bad" {
-				r.Err = fmt.Errorf("step %d: %s", pos, p.Detail)
-				return p.Ret, false
+			if p.Ret == "bad" { // the real observer is not running although the behaviour polls it
+				p.Ret = "n/a"
 			}
 			l["ret"], l["detail"], l["seq"], l["rng"], l["fired"] = p.Ret, p.Detail, p.Seq, p.Rng, p.Fired
 		case "stop":
@@ -86,7 +93,7 @@ func (r *Run) Execute() {
 		l["blk"], l["canon"], l["ob"] = cloneBlk(w.Blk), w.Canon, w.obJ()
 		r.Steps++
 		emit(pos, l)
-		return l["ret"].(string), true
+		return l["ret"].(string), l["ret"] != "n/a"
 	}
 	for i, a := range r.Beh {
 		switch a.Op {
